@@ -283,7 +283,7 @@ pub fn scenarios(tier: Tier) -> Vec<Scenario> {
         for carrier in [false, true] {
             let r = Race { stream: s.clone(), carrier };
             let name = format!("{:?}", r);
-            v.push(Scenario::new(name, sched_cfg(), if tier.is_quick() { 2 } else { 3 }, move || race_body(&r)));
+            v.push(Scenario::new(name, sched_cfg(), 3, move || race_body(&r)));
         }
     }
     v
